@@ -116,10 +116,20 @@ def cmd_sample(hid, n, seed, fixed_json, exclude=()):
     exhaustive = False
     first = None
     attempts = 0
+    import os as _os
+    import time as _time
+    t_begin = _time.time()
+    wall = float(_os.environ.get("VC_SAMPLE_SECONDS", "0") or 0)
+    timed_out = False
     for inputs, exh in gen_inputs(h, n, seed, fixed):
         exhaustive = exh
         attempts += 1
         if not exh and (npass >= n or attempts > 60 * n):
+            break
+        if wall and _time.time() - t_begin > wall:
+            # wall-clock budget of one sampling call (rejection sampling with rarely satisfied assumptions)
+            timed_out = True
+            exhaustive = False
             break
         if region_fns:
             try:
@@ -141,7 +151,8 @@ def cmd_sample(hid, n, seed, fixed_json, exclude=()):
             if len(fails) >= 5:
                 break
     print(json.dumps({"pass": npass, "skip": nskip, "fails": fails, "exhaustive": exhaustive,
-                      "sample": first, "in_known_regions": nknown}))
+                      "sample": first, "in_known_regions": nknown, "timed_out": timed_out,
+                      "attempts": attempts}))
 
 
 def main():
